@@ -100,7 +100,7 @@ func runRTCase(c rtCase) *core.Failure {
 	}
 	c.Frame.Fix()
 	qf := model.BuildShape(c.Frame, c.Shape)
-	in := model.Observe(qf)
+	in := model.ObserveAs(qf, c.Frame)
 	if in.Err {
 		return core.Failf("could not build frame: %s", in.ErrText)
 	}
